@@ -279,12 +279,24 @@ async fn main(plan: Plan) -> Outcome {
     for _ in 0..plan.refreshers {
         let session = session.clone();
         let gaps: Vec<u64> = (0..6).map(|_| tape::range("c19:refresh_gap", 0, 3000) * MS).collect();
+        // Some callers give up on their refresh after a few milliseconds (the call is
+        // dropped while its request may already be queued or merged with others').
+        let give_up: Vec<Option<u64>> = (0..6)
+            .map(|_| if tape::chance("c19:refresh_cancel", 1, 4) { Some(tape::range("c19:refresh_cancel_after", 0, 40) * MS) } else { None })
+            .collect();
         handles.push(tokio::spawn(async move {
             let mut slow = Vec::new();
             let mut stale: Vec<String> = Vec::new();
             let mut n = 0u64;
-            for g in gaps {
+            for (g, give_up) in gaps.into_iter().zip(give_up) {
                 world::sleep_ns(g).await;
+                if let Some(after) = give_up {
+                    if tokio::time::timeout(Duration::from_nanos(after.max(1)), session.refresh_metadata()).await.is_err() {
+                        world::world().fault(Fault::Cancel);
+                    }
+                    n += 1;
+                    continue;
+                }
                 let t = world::now_ns();
                 let v0 = TOPO_VERSION.load(std::sync::atomic::Ordering::SeqCst);
                 let ring0 = ring_now();
